@@ -1638,10 +1638,12 @@ fn only_own_udp_loss(plan: &PlanB, q: &QuerySpec) -> bool {
     if q.tcp || q.after_faults || q.dup_in {
         return false;
     }
-    /* erbium's own transmissions must have gone out (no loss, no failed sendmsg); a wrong
-     * reply on a reused port (low-entropy ids with a small port range) legitimately moves
-     * the exchange to TCP, where other faults may apply */
-    if plan.out_loss_p > 0.0 || plan.send_err_p > 0.0 || (plan.qid_bits < 16 && plan.eph_ports > 0) {
+    /* erbium's own transmissions must have gone out (no loss, no failed sendmsg); a late or
+     * duplicated reply to an earlier exchange that arrives on a reused port (small port
+     * range, whatever the entropy of the ids) moves the exchange to TCP by design
+     * (outquery.rs: "a late reply to some other query that used this port before ...
+     * immediately retry over TCP"), where other faults may apply */
+    if plan.out_loss_p > 0.0 || plan.send_err_p > 0.0 || plan.eph_ports > 0 {
         return false;
     }
     if !plan.clock_jumps.is_empty() {
